@@ -288,7 +288,14 @@ fn gen_op(prop: &str, d: &Desc, cur: &Value, avail: usize, rng: &mut Rng) -> Opt
     if !d.is_sized() && assign_ok && (assign_bias && rng.chance(3, 4) || rng.chance(1, 12)) {
         // replacement values of very different sizes so that failing and succeeding assigns occur
         let budget = *rng.pick(&[0usize, 2, 4, 8, avail / 2, avail, avail + avail / 2 + 4]);
-        return Some(Op::Assign(gen_value(d, rng, budget.max(1)), rng.next()));
+        let mut v = gen_value(d, rng, budget.max(1));
+        if avail > 300 && rng.chance(1, 8) {
+            // more elements than a one-byte length type can count: refused although the bytes would fit
+            if let Some(o) = make_overlong(d, &v, rng) {
+                v = o;
+            }
+        }
+        return Some(Op::Assign(v, rng.next()));
     }
     match d {
         Desc::Vec { elem, .. } => {
@@ -548,6 +555,27 @@ pub fn run(ctx: &Ctx, rep: &mut Report) {
         let mut keys: Vec<u64> = Vec::new();
         let mut harness_err: Option<String> = None;
 
+        if prop == "C11" && !lean && rng.chance(1, 16) {
+            // growth beyond what the length type can count is refused at construction too: an initialiser with more
+            // elements than `L::MAX` must not be accepted (and silently cut) however large the buffer is
+            let mut r2 = Rng::new(mix(idx) ^ 0x0dd);
+            if let Some(vo) = make_overlong(d, &v0, &mut r2) {
+                let room = overlong_room(d, &vo);
+                let mut ar2 = Arena::new(room, off, Place::Island, mix(idx) ^ 5);
+                let mut seen: Option<Value> = None;
+                let r = guarded(|| (vt.new_in_place)(arena_slice_mut(&mut ar2), &vo, style0, &mut |root| seen = Some(root.as_dyn().read())));
+                match r {
+                    Ok(Ok(())) => rep.violation(
+                        format!("C11|accepted-more-elements-than-length-type|{}", kind_path(d)),
+                        format!("{}: an initialiser with more elements than the length type can count was accepted in {} bytes; the value holds {}", vt.name, room, seen.map(|v| v.short()).unwrap_or_default()),
+                        case_json(ctx, idx).set("shape", J::s(vt.name)).set("buffer", J::i(room)),
+                    ),
+                    Ok(Err(_)) => rep.count("construct-beyond-length-type-refused"),
+                    Err(p) if is_harness_panic(&p) => rep.harness_error(p),
+                    Err(p) => rep.violation(format!("C11|panic|construct|{}", panic_site(&p)), format!("{}: constructing with more elements than the length type can count panicked: {}", vt.name, p), case_json(ctx, idx).set("shape", J::s(vt.name))),
+                }
+            }
+        }
         let res = guarded(|| {
             (vt.new_in_place)(arena_slice_mut(&mut arena), &v0, style0, &mut |root| {
                 let mut model = v0.clone();
